@@ -17,68 +17,6 @@ import DuckModel.Lemmas.Utf8DecodeLemmas
 namespace Duck
 open Duck.FsTree
 
-namespace FsTree
-
-theorem resolve_file {t : Node} {p : P} {b : Bytes} (h : resolve t p = some (.file b)) :
-    lookup t p.comps = some (.file b) ∧ p.trail = false := by
-  unfold resolve at h
-  split at h
-  · split at h
-    · cases h
-    · next hl _ => simp at h; subst h; exact ⟨hl, by simp_all⟩
-  · cases h
-  · cases h
-
-theorem resolve_of_lookup_file {t : Node} {p : P} {b : Bytes}
-    (h : lookup t p.comps = some (.file b)) (ht : p.trail = false) :
-    resolve t p = some (.file b) := by
-  simp [resolve, h, ht]
-
-theorem resolve_dir {t : Node} {p : P} {es : Entries} (h : resolve t p = some (.dir es)) :
-    lookup t p.comps = some (.dir es) := by
-  unfold resolve at h
-  split at h
-  · split at h <;> cases h
-  · next hl => simp at h; subst h; exact hl
-  · cases h
-
-/-- a successful write put a file with the expected content at the path, where no directory was -/
-theorem writeGen_ok {t t' : Node} {p : P} {data : Bytes} {app : Bool} {v : Val}
-    (h : writeGen t p data app = (t', .ok v)) :
-    p.trail = false ∧ (∀ es, lookup t p.comps ≠ some (.dir es)) ∧
-      ∃ content, putAt t p.comps (.file content) = some t' ∧
-        ((∀ old, lookup t p.comps = some (.file old) →
-            content = if app then old ++ data else data) ∧
-         (lookup t p.comps = none → content = data)) := by
-  unfold writeGen at h
-  split at h
-  · cases h
-  · next htr =>
-    refine ⟨by simpa using htr, ?_⟩
-    split at h
-    · cases h
-    · next old hl =>
-      split at h
-      · next t'' hp =>
-        cases h
-        exact ⟨by simp [hl], _, hp, by simp [hl], by simp [hl]⟩
-      · cases h
-    · next hl =>
-      split at h
-      · next t'' hp =>
-        cases h
-        exact ⟨by simp [hl], _, hp, by simp [hl], by simp⟩
-      · cases h
-
-theorem writeGen_read {t t' : Node} {p : P} {content : Bytes} (htr : p.trail = false)
-    (hp : putAt t p.comps (.file content) = some t') :
-    resolve t' p = some (.file content) := by
-  have := lookup_putAt_self hp []
-  simp at this
-  exact resolve_of_lookup_file this htr
-
-end FsTree
-
 /-! ### what was written is what is read -/
 
 /-- after a successful `writefile p s`: `readfile p` gives `s` back (and `readbinfile` its UTF-8
@@ -217,40 +155,6 @@ theorem C18_cp_file (t t' : Node) (src dst : P) (v : Val)
           · cases h
 
 /-! ### move = copy then delete -/
-
-namespace FsTree
-
-theorem mvTargetIsFile_not_dir {t : Node} {dst : P} (h : mvTargetIsFile t dst = true) :
-    ∀ es, lookup t dst.comps ≠ some (.dir es) := by
-  intro es he
-  unfold mvTargetIsFile at h
-  have hr : resolve t dst = some (.dir es) := by simp [resolve, he]
-  simp [hr, Node.isFile] at h
-
-/-- with `src` a file and `target` neither below nor above it, the file survives a `putAt` -/
-theorem src_survives {t t2 : Node} {src : P} {target : List Str} {b : Bytes}
-    (hl : lookup t src.comps = some (.file b)) (htr : src.trail = false)
-    (hp : putAt t target (.file b) = some t2) (hne : src.comps ≠ target)
-    (hnd : ∀ es, lookup t target ≠ some (.dir es)) :
-    resolve t2 src = some (.file b) := by
-  have h1 : ¬ src.comps <+: target := by
-    rintro ⟨r, hr⟩
-    have hr' : r ≠ [] := by
-      intro e; subst e; simp at hr; exact hne hr
-    have := putAt_file_prefix_none hl r hr' (.file b)
-    rw [hr, hp] at this
-    cases this
-  have h2 : ¬ target <+: src.comps := by
-    rintro ⟨r, hr⟩
-    have hr' : r ≠ [] := by
-      intro e; subst e; simp at hr; exact hne hr.symm
-    rw [← hr] at hl
-    obtain ⟨es, he⟩ := lookup_prefix_dir hl hr'
-    exact hnd es he
-  have := lookup_putAt_incomp hp src.comps h1 h2
-  exact resolve_of_lookup_file (this.trans hl) htr
-
-end FsTree
 
 /-- PARTIAL (file sources only; directory sources are outside the property's domain):
     a successful `mv src dst` of a file leaves exactly the tree of "copy to the target the
@@ -452,7 +356,7 @@ theorem C18_path_functions :
     (∀ d b, PlainName b → d ≠ [] → CleanEnd d → dirname (d ++ '/' :: b) = some d) ∧
     (∀ args, hasDouble (joinPath args) = false) ∧
     (∀ args, hasDouble (joinSlash args) = false → joinPath args = joinSlash args) :=
-  ⟨basename_join, dirname_join, fun args => hasDouble_squeeze _, fun args h => squeeze_id _ h⟩
+  ⟨basename_join, dirname_join, fun _ => hasDouble_squeeze _, fun _ h => squeeze_id _ h⟩
 
 /-! ### non-vacuity: a concrete 3-level tree `a/b/c/f.txt` -/
 
